@@ -23,8 +23,11 @@ type genFamily struct {
 	prologue   string
 	sep        string
 	items      []string
+	deep       [][6]string // head, open, sep, core, close, tail: deeply nested items (see harness deepShape)
 	// knobs this family may vary
 	knobs []string
+	// option combinations that are always part of a batch (before the random ones)
+	presets [][]string
 }
 
 const famStmts = `language %NAME%(go);
@@ -93,7 +96,6 @@ lang = "%NAME%"
 package = "github.com/inspirer/textmapper/zzverif/gen/%NAME%"
 eventBased = true
 cancellable = true
-recursiveLookaheads = true
 %OPTS%
 
 :: lexer
@@ -197,7 +199,6 @@ lang = "%NAME%"
 package = "github.com/inspirer/textmapper/zzverif/gen/%NAME%"
 eventBased = true
 cancellable = true
-recursiveLookaheads = true
 %OPTS%
 
 :: lexer
@@ -233,29 +234,37 @@ var genFamilies = []*genFamily{
 	{
 		name: "stmts", text: famStmts, recovery: true, space: []string{"COMMENT", "INVALID_TOKEN"},
 		sep: "\n",
+		deep: [][6]string{
+			{"", "{", " # c\n", "a = 1;", "}", ""},
+			{"z = ", "(", " # c\n", "1", ")", ";"},
+			{"", "if (a)", " # c\n", "b = 1;", "", ""},
+		},
 		items: []string{
 			"a = 1;", "b = a + 2 * c;", "print a;", "print (a + b) * c;", "{ a = 1; b = 2; }", "if (a) b = 1;", "if (a + 1) { print b; }",
 			"x = f(1, 2, g(3));", "y = f();", "# comment", "z = ((((1))));", "{ }", "{ { { print 1; } } }", "w = a * b * c + d * e + f;",
 		},
-		knobs: []string{"optimizeTables", "fixWhitespace", "tokenLine", "tokenStream", "cancellableFetch"},
+		knobs:   []string{"optimizeTables", "fixWhitespace", "tokenLine", "tokenStream", "cancellableFetch"},
+		presets: [][]string{{"tokenLine"}, {"tokenStream", "cancellableFetch", "tokenLine"}, {"optimizeTables", "fixWhitespace", "cancellableFetch"}},
 	},
 	{
 		name: "lookahead", text: famLookahead, lookaheads: true,
 		sep: "\n",
 		items: []string{
 			"(1, 2, 3);", "(1, 2);", "(a, b) => c;", "() => d;", "(a);", "((a));", "((a, b) => c);", "([a, (b), (c) => d]);", "(((() => x)));", "name;",
-			"([a, [b, [c]]]);", "(x) => y;",
+			"([a, [b, [c]]]);", "(x) => y;", "(1, 2, 3);", "(a) => b;", "(1);",
 		},
-		knobs: []string{"optimizeTables", "cancellableFetch", "tokenLine"},
+		knobs:   []string{"optimizeTables", "cancellableFetch", "tokenLine", "recursiveLookaheads"},
+		presets: [][]string{{"tokenLine"}, {"recursiveLookaheads", "optimizeTables", "tokenLine"}, {"cancellableFetch"}},
 	},
 	{
 		name: "lanegated", text: famLookaheadNegated, lookaheads: true,
 		sep: "\n",
 		items: []string{
 			"[a, b, c];", "[- - - - - - a];", "[- - - x, y];", "[1, 2, 3];", "[- - 1, 2, 3, 4, 5, 6];", "[1, 2, 3 : t];", "[- - - - 7 : u];", "name;",
-			"[- - - - - - - - - - - - k];",
+			"[- - - - - - - - - - - - k];", "[- a];", "[- - - - - a];", "[- 1];", "[- - - - - 1];", "[1];", "[a];",
 		},
-		knobs: []string{"optimizeTables", "cancellableFetch"},
+		knobs:   []string{"optimizeTables", "cancellableFetch", "recursiveLookaheads"},
+		presets: [][]string{{}, {"recursiveLookaheads", "cancellableFetch"}},
 	},
 	{
 		name: "larecover", text: famLookaheadRecover, recovery: true, lookaheads: true, space: []string{"INVALID_TOKEN"},
@@ -264,7 +273,8 @@ var genFamilies = []*genFamily{
 			"a = b;", "a = 1;", "a = f(1, 2);", "a = f();", "a = g<T>(x);", "a = g<T, U<V>>(f(1), h<W>());", "a = b < c;", "a = b < c > d;", "a = b > c;",
 			"a = f(g<T>(1), b < c);",
 		},
-		knobs: []string{"optimizeTables", "cancellableFetch", "tokenStream", "fixWhitespace"},
+		knobs:   []string{"optimizeTables", "cancellableFetch", "tokenStream", "fixWhitespace"},
+		presets: [][]string{{}, {"tokenStream"}, {"cancellableFetch", "optimizeTables"}},
 	},
 }
 
@@ -337,24 +347,39 @@ func generateBatch(cfg *config, ov *overlay, info map[string]any) error {
 		return fmt.Errorf("building the current tree's textmapper: %w", err)
 	}
 	src := sim.NewSearch(cfg.seed, 0x67656e) // batch options come from the seed too
-	n := 8
+	// the batch: every preset of every family, then random option draws
+	type plan struct {
+		fam *genFamily
+		on  map[string]bool // nil = draw
+	}
+	var plans []plan
+	for _, fam := range genFamilies {
+		for _, pre := range fam.presets {
+			on := map[string]bool{}
+			for _, k := range pre {
+				on[k] = true
+			}
+			plans = append(plans, plan{fam, on})
+		}
+	}
+	extra := 3
 	if cfg.tier == "thorough" {
-		n = 16
+		extra = 12
+	}
+	for i := 0; i < extra; i++ {
+		plans = append(plans, plan{genFamilies[src.Draw(len(genFamilies))], nil})
 	}
 	var insts []*genInstance
 	var skipped []string
-	for i := 0; i < n; i++ {
-		fam := genFamilies[i%len(genFamilies)]
+	for i, pl := range plans {
+		fam := pl.fam
 		in := &genInstance{Name: fmt.Sprintf("g%02d", i+1), Family: fam, Opts: map[string]bool{}, Recovery: fam.recovery, TokenLine: true}
 		var opts []string
 		var on []string
 		for _, k := range fam.knobs {
 			v := src.Chance(1, 2)
-			if i < len(genFamilies) && k != "tokenLine" {
-				v = false // the first instance of each family is the plain configuration
-			}
-			if i < len(genFamilies) && k == "tokenLine" {
-				v = true
+			if pl.on != nil {
+				v = pl.on[k]
 			}
 			in.Opts[k] = v
 			opts = append(opts, fmt.Sprintf("%s = %v", k, v))
@@ -426,8 +451,8 @@ func generateBatch(cfg *config, ov *overlay, info map[string]any) error {
 	var names []string
 	for _, in := range good {
 		addGenerated(cfg, ov, in)
-		fmt.Fprintf(&reg, "\tregisterGenerated(%q, %s.ZZParse, %s.ZZTokenEnds, &corpus{prologue: %q, sep: %q, items: %#v}, %v, %v)\n",
-			in.Desc, in.Name, in.Name, in.Family.prologue, in.Family.sep, in.Family.items, in.Recovery, in.Family.lookaheads)
+		fmt.Fprintf(&reg, "\tregisterGenerated(%q, %s.ZZParse, %s.ZZTokenEnds, &corpus{prologue: %q, sep: %q, items: %#v}, %#v, %v, %v)\n",
+			in.Desc, in.Name, in.Name, in.Family.prologue, in.Family.sep, in.Family.items, in.Family.deep, in.Recovery, in.Family.lookaheads)
 		names = append(names, in.Desc)
 	}
 	reg.WriteString("}\n")
